@@ -85,7 +85,7 @@ class Executor(CallMixin, EvalMixin, ExprMixin, StmtMixin):
         if name == "pre":
             # current variables, heap of the function's pre-state: "the old fields of the object that is now at ..."
             if st.old is None: raise VCError("pre() without pre-state")
-            o = st.fork(); o.env = dict(st.env); o.heap = dict(st.old.heap); o.old = None
+            o = st.fork(); o.env = dict(st.env); o.heap = dict(st.old.heap)
             for s2, v in self.ev(node.args[0], o): yield st, v
             return
         if name in ("forall", "exists"):
